@@ -38,7 +38,7 @@ RULE = ("each run builds an upload tree with symlinks and a prefix-sharing sibli
         "a plain relative one, or the request was not permitted")
 PROBES = ["write_fault_mid_file", "write_fault_at_0", "open_fault", "mkdir_fault", "replace_fault",
           "overwrite_existing", "symlink_to_outside", "symlink_inside", "traversal_spelling",
-          "sibling_prefix", "delete_request", "token_wrong", "size_over_limit", "upload_with_limit_zero", "via_protocol", "layout_changed_between_requests", "request_arrives_as_the_timer_is_due", "client_left_right_after_upload",
+          "sibling_prefix", "delete_request", "token_wrong", "size_over_limit", "upload_with_limit_zero", "via_protocol", "layout_changed_between_requests", "error_reported_at_close", "request_arrives_as_the_timer_is_due", "half_close_before_all_declared_bytes", "client_left_right_after_upload",
           "must_succeed_core", "fault_on_existing_file", "handler_from_server_config"]
 COMPONENTS = {
     "real": ["nauyaca.server.handler.FileUploadHandler", "nauyaca.protocol.request.TitanRequest "
@@ -162,7 +162,7 @@ def run_one(ch):
                       ";token= sekrit "][tokv]
             mime = ch.pick("mime", ["text/plain", "image/png", "text/gemini", "application/x-evil"])
             line = f"titan://{HOST}{path};size={size};mime={mime}{tokstr}"
-            fkind = ch.choose("fault", 6, [8, 3, 1, 1, 1, 1])
+            fkind = ch.choose("fault", 7, [8, 3, 1, 1, 1, 1, 1])
             plan = []
             fdesc = None
             if fkind == 1:
@@ -179,6 +179,11 @@ def run_one(ch):
             elif fkind == 4:
                 plan = [{"op": "replace", "kind": ch.pick("rerr", ["EACCES", "EIO", "ENOSPC"])}]
                 fdesc = "replace-" + plan[0]["kind"]
+            elif fkind == 6 and size > 0:
+                # the error only shows when the buffered tail is flushed (at close)
+                k = ch.pick("flk", [0, size // 2])
+                plan = [{"op": "flush", "kind": ch.pick("flerr", ["ENOSPC", "EIO"]), "after": k}]
+                fdesc = f"flush-{plan[0]['kind']}-after-{k}"
             elif fkind == 5 and size == 0:
                 plan = [{"op": "unlink", "kind": "EACCES"}]
                 fdesc = "unlink-EACCES"
@@ -307,6 +312,8 @@ def run_one(ch):
                     res.stats["write_fault_at_0" if k == 0 else "write_fault_mid_file"] += 1
                     if before.get(rel_dest, (None,))[0] == "f":
                         res.stats["fault_on_existing_file"] += 1
+                elif f[0] == "flush":
+                    res.stats["error_reported_at_close"] += 1
                 elif f[0] == "open":
                     res.stats["open_fault"] += 1
                 elif f[0] == "mkdir":
@@ -333,7 +340,9 @@ def run_one(ch):
                     res.stats["upload_with_limit_zero"] += 1
             if via_proto:
                 res.stats["via_protocol"] += 1
-                if deadline_case and not _VP.pop("stalled_thread", False):
+                if _VP.pop("short", False):
+                    res.stats["half_close_before_all_declared_bytes"] += 1
+                elif deadline_case and not _VP.pop("stalled_thread", False):
                     res.stats["request_arrives_as_the_timer_is_due"] += 1
             res.stats["requests"] += 1
             sigs.append((pclass, bool(permitted), fdesc and fdesc.split("-after-")[0],
@@ -362,7 +371,9 @@ def _via_protocol(ch, handler, line, content):
     mode = ch.pick("vpmode", ["plain", "stdlib", "pyopenssl"], [3, 1, 3])
     extra = b"TRAILING" if ch.chance("trail", 0.3) else b""
     head = line.encode() + b"\r\n" + content
-    flight = ch.choose("vpflight", 5, [5, 2, 2, 1, 1])
+    flight = ch.choose("vpflight", 6, [5, 2, 2, 1, 1, 1])
+    if flight == 5 and (not content or mode == "pyopenssl"):
+        flight = 0
     _VP["left"] = flight in (2, 3)
     if flight == 0:
         # one write, cut by the network at drawn places
@@ -373,7 +384,13 @@ def _via_protocol(ch, handler, line, content):
         # the request ends exactly at a write (= TLS record) boundary and something else
         # follows in the same flight: undeclared bytes, or the client's goodbye
         pol = WholePolicy(0.001)
-        if flight == 4:
+        if flight == 5:
+            # the client half-closes (FIN / close_notify) after only PART of the declared
+            # content and keeps reading: nothing may be stored, whatever is answered
+            k_ = ch.choose("vpshort", len(content))
+            script = [("send", line.encode() + b"\r\n" + content[:k_]), ("fin",) if mode == "plain" else ("close",)]
+            _VP["short"] = True
+        elif flight == 4:
             # the complete request arrives in the instant the 30 s request timer is due (or a
             # millisecond before / after): answered 20 and stored, or 40 and nothing stored
             script = [("sleep", ch.pick("vpdeadline", [29.998, 29.999, 30.0])), ("send", head + extra)]
@@ -410,6 +427,8 @@ def _via_protocol(ch, handler, line, content):
         raise sim.error
     if status != "done":
         raise RuntimeError(f"C14 wire world ended with status {status}")
+    if flight == 5:
+        _VP["deadline"] = True      # the request was never complete: no answer is owed a 20
     if flight == 4:
         _VP["deadline"] = True
     if net.stats.get("executor_job_stalled"):
